@@ -755,12 +755,18 @@ func (s *State) toLeaf(v Val, sort string) Term {
 		if x.Obj == 0 {
 			return Term{"ref_nil", SRef}
 		}
-		r := s.c.fresh("ptr", SRef)
-		s.assume(tNot(tEq(r, Term{"ref_nil", SRef})))
+		// one reference per structural pointer (so that uninterpreted functions of it agree)
+		key := fmt.Sprintf("ptr:%d/%v", x.Obj, x.Path)
 		if s.refVals == nil {
 			s.refVals = map[string]Val{}
 		}
+		if rv, ok := s.refVals[key]; ok {
+			return rv.(Scalar).T
+		}
+		r := s.c.fresh("ptr", SRef)
+		s.assumeGlobal(tNot(tEq(r, Term{"ref_nil", SRef})))
 		s.refVals[r.S] = x
+		s.refVals[key] = Scalar{T: r}
 		return r
 	case IfaceV:
 		if x.Tag.S != "" {
